@@ -141,6 +141,17 @@ def _views(ctx, res, prob, inds, n, o, maxtag, lastpop):
                                                                                        _neq(p_all[2], [x.vector[1] for x in members])))
         p_one = res.parameter_on_index(name='x1', **kw)
         ctx.check('parameter-on-index-named-parameter', True if len(p_one) != 2 else _neq(p_one[1], [x.vector[1] for x in members]))
+    # multi-step: a further individual is recorded after the first queries; the same Results object must show it
+    from artap.individual import Individual as _Ind
+    late = _Ind([ctx.real('late_v0'), ctx.real('late_v1')])
+    late.costs = [ctx.real('late_c%d' % k) for k in range(o)]
+    late.population_id = maxtag + 1
+    late.features['front_number'] = 1
+    prob.individuals.append(late)
+    ctx.check('later-record-becomes-the-last-generation', [x.id for x in res.population()] != [late.id])
+    ctx.check('later-record-appears-in-the-table', len(res.table(transpose=False)) != n + 1)
+    ctx.check('later-record-appears-in-costs', any(len(c) != n + 1 for c in res.costs()))
+    prob.individuals.pop()
     pi = res.pareto_individuals()
     want = [x for x in lastpop if _front1(x)]
     ctx.check('pareto-individuals', [x.id for x in pi] != [x.id for x in want])
